@@ -4,7 +4,7 @@ from harness.props._common import run_eval, replay_eval
 from harness import monitors
 
 PROPS_FILE = "P_C04"
-COQ_TARGETS = ["CaseLib", "CaseLibMcx", "LdmcsuModel", "QdmcuModel", "LdmcuInst", "AbcModel", "LdmcsuEig", "MultiTarget"]
+COQ_TARGETS = ["CaseLib", "CaseLibMcx", "LdmcsuModel", "QdmcuModel", "LdmcuInst", "AbcModel", "LdmcsuEig", "MultiTarget", "MultiTargetAll"]
 RULE = ("contract monitors: every call of Qdmcu.custom_sqrtm (V unitary, V V = U: premises of C04_barenco_step) and of "
         "Ldmcsu._compute_gate_a (A unitary, (A^dagger X A X)^2 = U: conclusion of C04_gate_a_fourth_root in matrix form) made while "
         "building gates for boundary and random SU(2)/U(2) matrices and 2..6/9 controls is checked numerically at 1e-9; gate-list "
@@ -12,8 +12,8 @@ RULE = ("contract monitors: every call of Qdmcu.custom_sqrtm (V unitary, V V = U
         "is compared inside Coq (vm_compute) with LdmcsuModel.ldmcsu k pattern hconj, and the 2x2 premises of C04_ldmcsu_plain/_hconj "
         "(A^dagger A = I, (A^dagger X A X)^2 = U or H U H) are checked on the A the code computed; for SU(2) matrices with both diagonals complex "
         "(eigenbasis branch, k = 2..12/24) the flattened definition is compared with LdmcsuEig.eig and the four 2x2 identities that are the "
-        "premises of C04_ldmcsu_eig are checked on the emitted one-qubit gates; MultiTargetMCSU2 on lists of rotations (k = 6..14/26 controls, 1-3 "
-        "targets, general branch) is compared with MultiTarget.mtm and the per-target premises of C04_multitarget are checked; the flattened definition of "
+        "premises of C04_ldmcsu_eig are checked on the emitted one-qubit gates; MultiTargetMCSU2 on lists of rotations (k = 2..14/26 controls, 1-3 "
+        "targets) is compared with MultiTarget.mtm and the per-target premises of C04_multitarget are checked; the flattened definition of "
         "Qdmcu(U, n, ctrl_state), n = 1..9/16, U(2) boundary and Haar matrices, is compared inside Coq with QdmcuModel.qdmcu (controlled V / "
         "V^dagger gates named by the custom_sqrtm iterate their base matrix equals, each checked to be the ideal controlled matrix; the "
         "premises of C04_qdmcu - V_(l+1)^2 = V_l, unitarity - are checked on the iterates); the flattened definition of Ldmcu(U, T, ctrl_state), "
@@ -25,8 +25,7 @@ RULE = ("contract monitors: every call of Qdmcu.custom_sqrtm (V unitary, V V = U
         "control pattern and boundary matrix. distinct = distinct (class, matrix, controls, pattern); non-trivial = k >= 2")
 ASSUMPTIONS = ["Qiskit's UnitaryGate(...).control(...) is the ideal controlled gate (validated numerically in the direct evaluation)",
                "the 2x2 identities that are premises of C04_qdmcu / C04_ldmcsu_* (square roots, unitarity) are checked numerically on the matrices the code computes",
-               "MCU's truncated ladder and the "
-               "small-k branches of MultiTargetMCSU2 are evaluated, not proved"]
+               "MCU's truncated ladder is evaluated, not proved"]
 TRUSTED = ["harness/monitors.py"]
 X = np.array([[0, 1], [1, 0]], dtype=complex)
 
@@ -535,7 +534,7 @@ MHEADER = AHEADER.replace("AbcModel.", "AbcModel LdmcsuModel MultiTarget.")
 
 
 def multitarget_correspondence(ctx):
-    """MultiTargetMCSU2(list of rotations, k controls, ctrl_state), general branch (k >= 8, or k >= 6 with two targets or more): the
+    """MultiTargetMCSU2(list of rotations, k >= 2 controls, ctrl_state): the
     flattened definition is compared inside Coq with MultiTarget.mtm k nt pattern flags; the gates A_i / A_i^dagger are named per
     target, and the premises of C04_multitarget (A_i^dagger A_i = 1, (A_i^dagger X A_i X)^2 = U_i', H U_i' H = U_i) are checked."""
     from cmath import isclose
@@ -554,10 +553,8 @@ def multitarget_correspondence(ctx):
         if kind == "ry":
             return np.array([[np.cos(t / 2), -np.sin(t / 2)], [np.sin(t / 2), np.cos(t / 2)]], dtype=complex)
         return np.array([[np.cos(t / 2), -1j * np.sin(t / 2)], [-1j * np.sin(t / 2), np.cos(t / 2)]])
-    for k in range(6, kmax + 1):
+    for k in range(2, kmax + 1):
         for nt in (1, 2, 3):
-            if nt == 1 and k < 8:
-                continue
             if k > 12 and nt == 3:
                 continue
             kinds = [["rx", "ry", "rz"][int(ctx.rng.integers(3))] for _ in range(nt)]
@@ -634,7 +631,7 @@ def replay(ctx, case):
 
 
 MANIFEST = dict(
-    text="Proof (PARTIAL): MultiTargetMCSU2, general branch (k >= 8 controls, or k >= 6 with two targets or more), any number of targets, every pattern: the operator is the product over the targets of the controlled U_i (C04_multitarget: multi-target V-chains on arbitrary placements via the general placement theorem, rows of per-target gates regrouped column by column - Transpose.transpose -, the one-target identity per column); Ldmcsu's eigenbasis branch (both diagonals complex) for every k >= 2 and every pattern, given four 2x2 identities on the emitted one-qubit gates (C04_ldmcsu_eig: the action_only V-chain and its inverse cancel their residue across the gates between them); LdMcSpecialUnitary end to end for every k >= 1 controls and every pattern given the ABC identities on the matrices (C04_ldmc_special: controlled C, LinearMcx onto the target borrowing the last control - action_only from six controls on -, controlled B, the inverse LinearMcx, controlled A, each controlled gate a nested a ; cx ; b ; cx ; c block); Ldmcu end to end for every T >= 1 controls, every control pattern and every invertible W (C04_ldmcu): the gate list in the order the code emits it - four sweeps of controlled RX(+-pi/2^e) and controlled roots of U over the pairs (control, target) sorted stably by control + target - applies W^(2^(T-1)) = U to the target exactly on the matching basis states and restores every control with its phase; proof = trace equivalence of the sorted sweeps with their grouped form (Resort.resort), merging of the gates of one target in a one-parameter group, the cascade 'flip qubit j iff all lower qubits are 1' by induction (LdmcuCore.Sl_sem, Sl'_sem) and the weight identity C04_ldmcu_weights; Qdmcu end to end for every number of controls, every control pattern and every 2x2 matrix family with V_(l+1)^2 = V_l, V_l V_l^dagger = 1: the gate list of QdmcuModel.qdmcu (controlled V, action-only LinearMcx on the lower controls with the target as dirty ancilla, controlled V^dagger, the inverse LinearMcx, recursion on the remaining controls with the next square root) applies U to the target exactly on the basis states matching the pattern and the identity elsewhere (C04_qdmcu; it rests on the exact LinearMcx for every k >= 1 and every pattern, C04_linear_mcx_exact, on the factorisation exact = controls-only circuit after action-only, and on a polarity version of Barenco Lemma 7.5); the spectral square root squares to the matrix (C04_spectral_sqrt); the recursion step of Qdmcu (Barenco Lemma 7.5) for any placement and any 'rest' predicate (C04_barenco_step), and the fourth-root identity of Ldmcsu._compute_gate_a over the reals (C04_gate_a_fourth_root); Ldmcsu end to end for every k >= 2, every control pattern and every SU(2) matrix with a real main or secondary diagonal: the gate list of LdmcsuModel.ldmcsu (two dirty V-chains, their inverses, A / A^dagger, optional H conjugation) applies U to the target exactly on the basis states matching the pattern and the identity elsewhere (C04_ldmcsu_plain, C04_ldmcsu_hconj, built on C05's placed V-chain theorems). Tie: the flattened Ldmcu, Ldmcsu (both branches), LdMcSpecialUnitary, MultiTargetMCSU2 and Qdmcu definitions are compared with the models' gate lists inside Coq; every custom_sqrtm and _compute_gate_a call made while building gates for boundary and random SU(2) matrices is checked against the theorem's premises/conclusion in matrix form. All gate classes (Ldmcu, Ldmcsu, LdMcSpecialUnitary, Qdmcu, Mcg, MCU, MultiTargetMCSU2), patterns and boundary matrices are evaluated against the ideal controlled operator.",
-    note='Modelled, not verified: Qiskit .control(), UnitaryGate; scipy schur inside custom_sqrtm (its output is checked, not modelled) and inside Ldmcu._gate_u (its roots are checked to be integer powers of the deepest root); numpy eig inside the eigenbasis branch of Ldmcsu (the identities it must deliver are checked), the ZYZ angles behind the ABC operators (their identities are checked), MCU bound and the small-k branches of the multi-target variant are evaluated only.',
+    text="Proof (PARTIAL): MultiTargetMCSU2 for every k >= 2 controls, any number of targets, every pattern: the operator is the product over the targets of the controlled U_i (C04_multitarget: multi-target V-chains on arbitrary placements via the general placement theorem, rows of per-target gates regrouped column by column - Transpose.transpose -, the one-target identity per column); Ldmcsu's eigenbasis branch (both diagonals complex) for every k >= 2 and every pattern, given four 2x2 identities on the emitted one-qubit gates (C04_ldmcsu_eig: the action_only V-chain and its inverse cancel their residue across the gates between them); LdMcSpecialUnitary end to end for every k >= 1 controls and every pattern given the ABC identities on the matrices (C04_ldmc_special: controlled C, LinearMcx onto the target borrowing the last control - action_only from six controls on -, controlled B, the inverse LinearMcx, controlled A, each controlled gate a nested a ; cx ; b ; cx ; c block); Ldmcu end to end for every T >= 1 controls, every control pattern and every invertible W (C04_ldmcu): the gate list in the order the code emits it - four sweeps of controlled RX(+-pi/2^e) and controlled roots of U over the pairs (control, target) sorted stably by control + target - applies W^(2^(T-1)) = U to the target exactly on the matching basis states and restores every control with its phase; proof = trace equivalence of the sorted sweeps with their grouped form (Resort.resort), merging of the gates of one target in a one-parameter group, the cascade 'flip qubit j iff all lower qubits are 1' by induction (LdmcuCore.Sl_sem, Sl'_sem) and the weight identity C04_ldmcu_weights; Qdmcu end to end for every number of controls, every control pattern and every 2x2 matrix family with V_(l+1)^2 = V_l, V_l V_l^dagger = 1: the gate list of QdmcuModel.qdmcu (controlled V, action-only LinearMcx on the lower controls with the target as dirty ancilla, controlled V^dagger, the inverse LinearMcx, recursion on the remaining controls with the next square root) applies U to the target exactly on the basis states matching the pattern and the identity elsewhere (C04_qdmcu; it rests on the exact LinearMcx for every k >= 1 and every pattern, C04_linear_mcx_exact, on the factorisation exact = controls-only circuit after action-only, and on a polarity version of Barenco Lemma 7.5); the spectral square root squares to the matrix (C04_spectral_sqrt); the recursion step of Qdmcu (Barenco Lemma 7.5) for any placement and any 'rest' predicate (C04_barenco_step), and the fourth-root identity of Ldmcsu._compute_gate_a over the reals (C04_gate_a_fourth_root); Ldmcsu end to end for every k >= 2, every control pattern and every SU(2) matrix with a real main or secondary diagonal: the gate list of LdmcsuModel.ldmcsu (two dirty V-chains, their inverses, A / A^dagger, optional H conjugation) applies U to the target exactly on the basis states matching the pattern and the identity elsewhere (C04_ldmcsu_plain, C04_ldmcsu_hconj, built on C05's placed V-chain theorems). Tie: the flattened Ldmcu, Ldmcsu (both branches), LdMcSpecialUnitary, MultiTargetMCSU2 and Qdmcu definitions are compared with the models' gate lists inside Coq; every custom_sqrtm and _compute_gate_a call made while building gates for boundary and random SU(2) matrices is checked against the theorem's premises/conclusion in matrix form. All gate classes (Ldmcu, Ldmcsu, LdMcSpecialUnitary, Qdmcu, Mcg, MCU, MultiTargetMCSU2), patterns and boundary matrices are evaluated against the ideal controlled operator.",
+    note='Modelled, not verified: Qiskit .control(), UnitaryGate; scipy schur inside custom_sqrtm (its output is checked, not modelled) and inside Ldmcu._gate_u (its roots are checked to be integer powers of the deepest root); numpy eig inside the eigenbasis branch of Ldmcsu (the identities it must deliver are checked), the ZYZ angles behind the ABC operators (their identities are checked), MCU bound and the one-control branches of the special-unitary gates are evaluated only.',
     technique='Coq proof (operator algebra on monomial/permuted states; trace equivalence of commuting gate orders; one-parameter groups; real sqrt algebra) + runtime contract monitors + operator / random-state evaluation',
     design_ref='DESIGN.md section 4, C04')
